@@ -50,7 +50,11 @@ def gen(tier, idx):
     if sc in ('f-wr', 'wr-other', 'over-r', 'del-r'):
         # the reader takes one step: put it at every position of the writer's run in turn (exhaustive for these scenarios)
         policy = 'pos:%d' % ((idx // len(SCEN)) % 16)
-    return dict(cfg=cfg, scen=sc, prior=prior, procs=procs, policy=policy, seed=r.randrange(10 ** 9), fine=False)
+    # every 8th dir schedule gates the readers at system-call level (scandir / stat / lstat / open) instead of helper level:
+    # finer interleavings than the model replays - those are monitored only
+    fine = kind == 'dir' and (idx // len(SCEN)) % 8 == 7 and any(role == 'reader' for role, _ in procs)
+    if fine and policy.startswith('pos:'): policy = 'random'
+    return dict(cfg=cfg, scen=sc, prior=prior, procs=procs, policy=policy, seed=r.randrange(10 ** 9), fine=fine)
 
 
 class Child:
@@ -224,13 +228,14 @@ def explore(prop, tier):
     errors = [t['err'] for t in trs if t['err']]
     trs = [t for t in trs if not t['err']]
     import run_sched_model
-    divs = run_sched_model.compare(trs)
+    divs = run_sched_model.compare([t for t in trs if not t['case'].get('fine')])
     viols = []
     tags = collections.Counter(); nontriv = 0
     for tr in trs:
         tags['scen:' + tr['case']['scen']] += 1; tags['policy:' + tr['case']['policy'].split(':')[0]] += 1
         if any(a[0] != b[0] for a, b in zip(tr['sched'], tr['sched'][1:])): nontriv += 1
         tags['steps'] += len(tr['sched'])
+        if tr['case'].get('fine'): tags['syscall-level-reader-gates'] += 1
         for v in monitor(tr): viols.append(dict(v, case=tr['case'], schedule=[s[0] for s in tr['sched']]))
     import run_sched_sql
     sq = run_sched_sql.explore_sql(tier)
@@ -262,7 +267,7 @@ def replay(prop, obj):
     tr = run_schedule(case)
     if tr['err']: raise NoVerdict(tr['err'])
     import run_sched_model
-    divs = run_sched_model.compare([tr])
+    divs = run_sched_model.compare([tr]) if not tr['case'].get('fine') else []
     return dict(violations=[dict(prop='C14', sig=v['sig'], msg=v['msg'], i=0) for v in monitor(tr)], divergence=divs[0]['detail'] if divs else None)
 
 
